@@ -162,14 +162,14 @@ Qed.
 
 (* ---------- 8. sun direction: code vs Almanac ---------- *)
 Lemma angle_budget :
-  deg2rad (115 / 10000) + deg2rad (12 / 10000) <= 2217 / 10000000.
+  deg2rad (275 / 10000) + deg2rad (2 / 1000) <= 5149 / 10000000.
 Proof. unfold deg2rad. interval. Qed.
 
 Lemma sun_direction d : century d -> cos (gen_sun_ecliptic_longitude d) <> -1 ->
   let ra := gen_sun_ra d in let dec := gen_sun_dec d in
   let l' := deg2rad (lambda_AA d) in let e' := deg2rad (eps_AA d) in
   chord3 (sph_x ra dec) (sph_y ra dec) (sph_z ra dec) (ecl_x l' e') (ecl_y l' e') (ecl_z l' e')
-  <= 23 / 100000.
+  <= 515 / 1000000.
 Proof.
   intros HT Hl. cbv zeta.
   destruct (sun_vector_code d HT Hl) as [Ex [Ey Ez]]. cbv zeta in Ex, Ey, Ez.
@@ -258,7 +258,7 @@ Lemma coszen_close d lon lat : century d -> cos (gen_sun_ecliptic_longitude d) <
   let th' := gmst82_rad d + deg2rad lon in let phi := deg2rad lat in
   Rabs (gen_cos_zen d lon lat
         - dot3 (ecl_x l' e') (ecl_y l' e') (ecl_z l' e') (zen_x th' phi) (zen_y th' phi) (zen_z th' phi))
-  <= 231 / 1000000.
+  <= 516 / 1000000.
 Proof.
   intros HT Hl. cbv zeta.
   rewrite coszen_is_dot. cbv zeta.
@@ -278,12 +278,12 @@ Proof.
     replace (gen_gmst d + deg2rad lon + 2 * - IZR k * PI - (gmst82_rad d + deg2rad lon))
       with (gen_gmst d - IZR k * (2 * PI) - gmst82_rad d) by ring.
     exact Hk. }
-  (* tighten the sun chord: 2.217e-4 + 1e-7 <= 2.31e-4 *)
+  (* the sun chord: 5.149e-4 + 1e-7 <= 5.16e-4 *)
   assert (H1' : chord3 (sph_x (gen_sun_ra d) (gen_sun_dec d)) (sph_y (gen_sun_ra d) (gen_sun_dec d))
                   (sph_z (gen_sun_ra d) (gen_sun_dec d))
                   (ecl_x (deg2rad (lambda_AA d)) (deg2rad (eps_AA d)))
                   (ecl_y (deg2rad (lambda_AA d)) (deg2rad (eps_AA d)))
-                  (ecl_z (deg2rad (lambda_AA d)) (deg2rad (eps_AA d))) <= 2217 / 10000000).
+                  (ecl_z (deg2rad (lambda_AA d)) (deg2rad (eps_AA d))) <= 5149 / 10000000).
   { destruct (sun_vector_code d HT Hl) as [Ex [Ey Ez]]. cbv zeta in Ex, Ey, Ez.
     rewrite Ex, Ey, Ez.
     apply Rle_trans with (1 := chord_ecl _ _ _ _).
